@@ -319,6 +319,16 @@ func pathD(v ssa.Value, d int) string {
 		if x.Call.IsInvoke() {
 			return pathD(x.Call.Value, d+1) + "." + x.Call.Method.Name() + "()"
 		}
+		if bi, ok := x.Call.Value.(*ssa.Builtin); ok {
+			s := bi.Name() + "("
+			for i, a := range x.Call.Args {
+				if i > 0 {
+					s += ","
+				}
+				s += pathD(a, d+1)
+			}
+			return s + ")"
+		}
 		return pathD(x.Call.Value, d+1) + "()"
 	case *ssa.Phi:
 		return "phi:" + x.Comment
